@@ -29,6 +29,8 @@ use super::affine::Polytope;
 #[derive(Clone, Debug)]
 pub struct LinearProgram {
     pub solver: Problem,
+    /// Two non-negative solver variables per coordinate: the coordinate ``i`` of a solution is
+    /// ``vars[2 * i] - vars[2 * i + 1]``.
     pub vars: Vec<Variable>,
 }
 
@@ -111,7 +113,8 @@ impl Polytope {
 
         match pb.solve() {
             Ok(sol) => {
-                let wit = Array1::from_iter(vars.iter().map(|var| sol[*var]));
+                // every free variable is represented as the difference of two non-negative ones
+                let wit = Array1::from_iter(vars.chunks(2).map(|pair| sol[pair[0]] - sol[pair[1]]));
                 if wit.iter().any(|x| x.is_infinite() || x.is_nan()) {
                     PolytopeStatus::Unbounded
                 } else {
@@ -134,15 +137,23 @@ impl Polytope {
         let mut pb = Problem::new(OptimizationDirection::Minimize);
 
         // create the variables for the linear program (objective function + variable bounds)
+        // each free variable x is split into x = x_pos - x_neg with x_pos, x_neg >= 0, so that
+        // the backend never has to place a variable at an infinite bound
         let vars: Vec<Variable> = cost_function
             .iter()
-            .map(|x| pb.add_var(*x, (f64::NEG_INFINITY, f64::INFINITY)))
+            .flat_map(|x| {
+                [
+                    pb.add_var(*x, (0.0, f64::INFINITY)),
+                    pb.add_var(-*x, (0.0, f64::INFINITY)),
+                ]
+            })
             .collect();
 
         // add linear constraints
         for (row, bias) in zip(self.mat.rows(), &self.bias) {
-            let constraint: Vec<(Variable, f64)> =
-                zip(&vars, row).map(|(var, coeff)| (*var, *coeff)).collect();
+            let constraint: Vec<(Variable, f64)> = zip(vars.chunks(2), row)
+                .flat_map(|(pair, coeff)| [(pair[0], *coeff), (pair[1], -*coeff)])
+                .collect();
 
             // set bias as upper bound (inclusive) of the linear constraint
             pb.add_constraint(constraint.as_slice(), ComparisonOp::Le, *bias);
